@@ -38,6 +38,9 @@ def gen_data(rng, n, d, kind):
     return np.array([[rng.gauss(0, 1) for _ in range(d)] for _ in range(n)])
 
 
+BOOST = int(os.environ.get("VERIF_BOOST", "1"))
+
+
 def run(rng, tier, res=None, want=("knnpred", "select")):
     load_opfython()
     import opfython.math.distance as dist
@@ -47,7 +50,7 @@ def run(rng, tier, res=None, want=("knnpred", "select")):
     from opfython.subgraphs.knn import KNNSubgraph
     res = res or Result("knnmodel")
     NEGTOP = enc(-FLOAT_MAX)
-    scale = 1 if tier == "quick" else 10
+    scale = BOOST if tier == "quick" else 10
     lines, obs, metas = [], [], []
 
     def viol(prop, msgs, meta):
